@@ -47,7 +47,7 @@ class TermGen:
 
     def __init__(self, num_locs, small_locs=(), fn_locs=None, comp=(), lits=None,
                  ops=None, builtins=("abs", "round", "floor", "ceil", "trunc"),
-                 unary=("-", "+"), allow_eq=False, allow_divmod=False, p_lit=0.3, comp_one_in=6, cont_locs=(), proj=False):
+                 unary=("-", "+"), allow_eq=False, allow_divmod=False, p_lit=0.3, comp_one_in=6, cont_locs=(), proj=False, divmod_item=False):
         self.num_locs = list(num_locs)
         self.small_locs = list(small_locs)
         self.fn_locs = dict(fn_locs or {})
@@ -58,6 +58,7 @@ class TermGen:
         self.unary = list(unary)
         self.allow_eq = allow_eq
         self.allow_divmod = allow_divmod
+        self.divmod_item = divmod_item      # divmod(t, u)[i] only (a number; a bare divmod yields a tuple)
         self.p_lit = p_lit
         self.cont_locs = list(cont_locs)    # containers a term may read AS A WHOLE through F['tot'](container)
         self.proj = proj                    # projections of a COMPUTED value: (term).real / .imag, divmod(t, u)[i]
@@ -92,7 +93,7 @@ class TermGen:
         kind = draw(st.sampled_from(kinds))
         if kind == "proj":
             # an item / attribute taken from a computed value: its owner is an expression node, not a reference
-            if self.allow_divmod and draw(st.booleans()):
+            if (self.allow_divmod or self.divmod_item) and draw(st.booleans()):
                 b = self.term(draw, depth - 1) if draw(st.booleans()) else self.lit(draw)
                 return ["item", ["bi", "divmod", self.term(draw, depth - 1), [b]], E.lit(draw(st.sampled_from([0, 1])))]
             inner = self.term(draw, depth - 1)
